@@ -302,6 +302,9 @@ def check_add_slide(ctx, prs, layout, rng, label, lines, impl, metas):
     parts_after = [s.part for s in prs.slides]
     if len(parts_after) != n_before + 1 or any(a is not b for a, b in zip(parts_after, parts_before)) or parts_after[-1] is not slide.part:
         ctx.fail("other-slide-touched", f"{label}/{layout.name}: the slides before the new one are no longer the same slide parts in the same order", case)
+    pn = [str(p_.partname) for p_ in parts_after]
+    if len(set(pn)) != len(pn):
+        ctx.fail("other-slide-touched", f"{label}/{layout.name}: the new slide's part is named {pn[-1]}, the name of another slide's part ({pn}): one of them is lost on save", case)
     if slide.slide_layout.part is not layout.part:
         ctx.fail("slide-layout-relationship", f"{label}/{layout.name}: slide_layout is not the layout it was made from", case)
     for s, before in others:
@@ -419,12 +422,19 @@ def correspond(ctx):
         layout = prs.slide_layouts[rng.randrange(len(prs.slide_layouts))]
         gen_layout_population(rng, layout, top=(gi % 8 == 1))
         if gi % 3 == 0:
-            if rng.random() < 0.5:
-                for _ in range(rng.choice([2, 2, 5, 9])):
+            if rng.random() < 0.5 or gi % 6 == 3:
+                for _ in range(rng.choice([2, 2, 5, 9]) + (gi % 6 == 3)):
                     prs.slides.add_slide(prs.slide_layouts[6])
             b = io.BytesIO(); prs.save(b); b.seek(0)
             r = rng.random()
-            if gi % 6 == 0 and len(prs.slides._sldIdLst) >= 5:
+            if gi % 6 == 3 and len(prs.slides._sldIdLst) >= 2:
+                # slide parts under other numbers (a gap, a permutation, a number above the count, out of sequence with the
+                # last one numbered as the count): the new slide's part name must be free, the others keep their content
+                from harness.props.c12 import renumber_slides
+                rb = renumber_slides(b.getvalue(), rng, kind=["last-is-count", "gap", "permute", "high"][(gi // 6) % 4])
+                if rb:
+                    b = io.BytesIO(rb); ctx.count("renumbered-slide-part-decks")
+            elif gi % 6 == 0 and len(prs.slides._sldIdLst) >= 5:
                 b = io.BytesIO(renumbered(b.getvalue(), rng)); ctx.count("renumbered-relationship-decks")
             elif r < 0.6:
                 b = io.BytesIO(rid_gap(b.getvalue(), rng)); ctx.count("relationship-id-gap-decks")
